@@ -5,7 +5,7 @@
    Conventions of the model (Model/C04_Dens.v): a parameter is a list of length 1 (scalar, broadcast by
    `bc n`) or n; `fixed` selects the repaired (true) or the unrepaired (false) formula of the defects
    that have a fix proposal; lnGamma enters through its value G = Gamma(shape) > 0. *)
-From CV Require Import Base.Tac Base.Cmp Model.C04_Dens Proofs.C04_Dens Proofs.C04_Gauss Proofs.C04_Norm Proofs.C04_More Proofs.C04_Sym.
+From CV Require Import Base.Tac Base.Cmp Model.C04_Dens Model.C04_Cdf Proofs.C04_Cdf Proofs.C04_Dens Proofs.C04_Gauss Proofs.C04_Norm Proofs.C04_More Proofs.C04_Sym.
 From Coq Require Import QArith Reals Lra.
 From Coquelicot Require Import Coquelicot.
 Local Open Scope R_scope.
@@ -115,9 +115,48 @@ Theorem C04_uniform_logpdf_refuted :
 Proof. exact uniform_logpdf_refuted. Qed.
 Print Assumptions C04_uniform_logpdf_refuted.
 
-(* ---------- Cauchy cdf ---------- *)
-(* PARTIAL: d/dx cdf = pdf is proved for the one family whose cdf has a closed form in the model (Cauchy), per
-   coordinate; Normal.cdf (erf), Gamma/Beta/InverseGamma.cdf (scipy special functions) are not modelled. *)
+(* ---------- cumulative distribution functions ---------- *)
+(* Normal: the model states the cdf factor as 1/2 + integral of the standard normal density up to (x - m)/s (the code's
+   erf expression is tied to it by the correspondence: one kernel-checked enclosure of the integral per case).
+   FULL for this statement: its derivative is the pdf factor, and it integrates the pdf over every interval. *)
+Theorem C04_normal_cdf_derivative : forall m s x : R, 0 < s ->
+  is_derive (fun t => normal_cdf1 (m, s, t)) x (normal_pdf1 (m, s, x)).
+Proof. exact normal_cdf1_derive. Qed.
+Print Assumptions C04_normal_cdf_derivative.
+
+Theorem C04_normal_cdf_integral : forall m s a b : R, 0 < s ->
+  is_RInt (fun t => normal_pdf1 (m, s, t)) a b (normal_cdf1 (m, s, b) - normal_cdf1 (m, s, a)).
+Proof. exact normal_cdf1_is_integral. Qed.
+Print Assumptions C04_normal_cdf_integral.
+
+(* the case files evaluate the cdf through the standardised points computed by the model over Q: same number *)
+Theorem C04_normal_cdf_standardised : forall mean std x : list R,
+  normal_cdf mean std x = normal_cdf_z (map (fun a : R * R * R => let '(m, s, t) := a in (t - m) / s) (normal_args mean std x)).
+Proof. exact normal_cdf_z_spec. Qed.
+Print Assumptions C04_normal_cdf_standardised.
+
+(* Gamma with integer shape k+1: the cdf (integral of the documented density from 0) has the closed form
+   1 - exp(-r x) sum_{i<=k} (r x)^i / i!  (integration by parts, induction on k), its derivative is the density,
+   and that density is the documented Gamma density with Gamma(k+1) = k! *)
+Theorem C04_gamma_cdf_closed_form : forall (k : nat) (r x : R),
+  gamma_int_cdf1 k r x = 1 - exp (- r * x) * esum k (r * x).
+Proof. exact gamma_int_cdf_closed. Qed.
+Print Assumptions C04_gamma_cdf_closed_form.
+
+Theorem C04_gamma_cdf_derivative : forall (k : nat) (r x : R), is_derive (gamma_int_cdf1 k r) x (gamma_int_pdf k r x).
+Proof. exact gamma_int_cdf_derive. Qed.
+Print Assumptions C04_gamma_cdf_derivative.
+
+Theorem C04_gamma_int_pdf_documented : forall (k : nat) (r x : R), 0 < r -> 0 < x ->
+  gamma_int_pdf k r x = gamma_pdf1 (INR (fact k)) (INR (S k)) r x.
+Proof. exact gamma_int_pdf_doc. Qed.
+Print Assumptions C04_gamma_int_pdf_documented.
+
+(* PARTIAL: d/dx cdf = pdf is proved for Normal, Cauchy and Gamma with integer shape.  Not proved: Beta and InverseGamma
+   (their cdfs are in the model as integrals for integer shapes and enclosed per case, but no theorem), Gamma / Beta /
+   InverseGamma with non-integer shapes (tied by the oracle's quadrature only), the multivariate Gaussian cdf (scipy's
+   algorithm; the covariance handed to it is checked exactly, the value against quadrature in 1-2 d), and the identity of
+   erf / the regularised incomplete gamma function with these integrals (not in the installed libraries). *)
 Theorem C04_cdf_derivative_partial : forall l s x : R, 0 < s ->
   is_derive (fun t => cauchy_cdf1 (l, s, t)) x (cauchy_pdf1 (l, s, x)).
 Proof. exact cauchy_cdf1_derive. Qed.
@@ -294,6 +333,15 @@ Theorem C04_gmrf_rank : forall (order : nat) (b : bc_t) (twod : bool) (dim : nat
   gmrf_rank_code b dim = gmrf_true_rank order b twod dim.
 Proof. exact gmrf_rank_guarded. Qed.
 Print Assumptions C04_gmrf_rank.
+
+(* after fixes/C20_gmrf_rank_rule.diff (model variant `true`, selected by probing the tree) the coded rank is the true rank
+   for every order <= 2 and boundary condition; variant `false` is the rule of the unrepaired tree *)
+Theorem C04_gmrf_rank_repaired : forall (order : nat) (b : bc_t) (twod : bool) (dim : nat),
+  (order <= 2)%nat -> b <> BBackward -> b <> BNone ->
+  gmrf_rank_v true order b twod dim = gmrf_true_rank order b twod dim /\
+  gmrf_rank_v false order b twod dim = gmrf_rank_code b dim.
+Proof. intros o b t d H1 H2 H3. split; [exact (gmrf_rank_v_fixed o b t d H1 H2 H3) | reflexivity]. Qed.
+Print Assumptions C04_gmrf_rank_repaired.
 
 Theorem C04_gmrf_rank_refuted :
   gmrf_rank_code BNeumann 5 <> gmrf_true_rank 2 BNeumann false 5 /\ gmrf_rank_code BNeumann 5 <> gmrf_true_rank 0 BNeumann false 5.
